@@ -57,8 +57,8 @@ ObsInit == [fkey |-> EmptyMap,     \* future -> Key(type, executor)
             canc |-> {},           \* ... whose terminal state is cancelled
             fail |-> {},           \* ... finished with an exception
             nlow |-> EmptyMap,     \* future -> number of submit() calls made to the delegate on its behalf
-            execs |-> {},          \* Key of executors created
-            shc |-> {}, shr |-> {},\* Key of executors whose shutdown() was entered / has returned
+            execs |-> {},          \* <<Key, instance>> of executors created (several objects may share a name = a label)
+            shc |-> {}, shr |-> {},\* <<Key, instance>> of executors whose shutdown() was entered / has returned
             polls |-> EmptyMap, pollerr |-> EmptyMap,   \* executor id -> calls / raising calls of the poll fn
             tmo |-> EmptyMap,      \* executor id -> cancels by the timeout thread that returned True
             scan |-> EmptyMap]     \* executor id -> cancels by CancelOnShutdown.shutdown() that returned True
@@ -72,9 +72,9 @@ ObsNext(st, e) ==
                      !.canc = IF e.s \in CancelledStates THEN @ \cup {e.f} ELSE @,
                      !.fail = IF e.s = "FINISHED" /\ e.a = 1 THEN @ \cup {e.f} ELSE @]
     [] e.ev = "LowerSubmit" -> [st EXCEPT !.nlow = Bump(@, e.f)]
-    [] e.ev = "ExecCreated" -> [st EXCEPT !.execs = @ \cup {Key(e.k, e.c)}]
-    [] e.ev = "ExecShutdownCall" -> [st EXCEPT !.shc = @ \cup {Key(e.k, e.c)}]
-    [] e.ev = "ExecShutdownRet" -> [st EXCEPT !.shr = @ \cup {Key(e.k, e.c)}]
+    [] e.ev = "ExecCreated" -> [st EXCEPT !.execs = @ \cup {<<Key(e.k, e.c), e.b>>}]
+    [] e.ev = "ExecShutdownCall" -> [st EXCEPT !.shc = @ \cup {<<Key(e.k, e.c), e.b>>}]
+    [] e.ev = "ExecShutdownRet" -> [st EXCEPT !.shr = @ \cup {<<Key(e.k, e.c), e.b>>}]
     [] e.ev = "FnCall" /\ e.s = "poll" ->
           [st EXCEPT !.polls = Bump(@, e.c), !.pollerr = IF e.a = 1 THEN Bump(@, e.c) ELSE @]
     [] e.ev = "CancelArrivedRet" /\ e.a = 1 ->
@@ -87,6 +87,7 @@ FutsOf(st, key) == {f \in DOMAIN st.fkey : st.fkey[f] = key}
 Pending(st, key) == FutsOf(st, key) \ st.term
 Children(st, p) == {f \in DOMAIN st.fpar : st.fpar[f] = p}
 B(x) == IF x THEN 1 ELSE 0
+NOf(S, key) == Cardinality({x \in S : x[1] = key})     \* executor objects with that label in S
 
 RECURSIVE SumRetries(_, _)
 SumRetries(st, S) ==       \* every submit to the delegate after the first one of a future is a retry
@@ -110,8 +111,8 @@ Gauges == {"future_inprogress", "exec_inprogress", "retry_queue", "throttle_queu
 GaugeOK(st, e) ==
   LET key == Key(e.k, e.c) IN
   CASE e.s = "future_inprogress" -> e.a = Cardinality(Pending(st, key))
-    [] e.s = "exec_inprogress" -> /\ e.a >= B(key \in st.execs) - B(key \in st.shc)
-                                  /\ e.a <= B(key \in st.execs) - B(key \in st.shr)
+    [] e.s = "exec_inprogress" -> /\ e.a >= NOf(st.execs, key) - NOf(st.shc, key)
+                                  /\ e.a <= NOf(st.execs, key) - NOf(st.shr, key)
     [] e.s = "retry_queue" -> /\ e.a >= Cardinality(RetryWaiting(st, e.c))
                               /\ e.a <= Cardinality(Pending(st, Key(T_RETRY, e.c)))
     [] e.s = "throttle_queue" -> e.a = Cardinality(ThrottleQueued(st, e.c))
@@ -122,7 +123,7 @@ CounterOK(st, e) ==
   CASE e.s = "future_total" -> e.a = Cardinality(FutsOf(st, key))
     [] e.s = "future_cancel" -> e.a = Cardinality(FutsOf(st, key) \cap st.canc)
     [] e.s = "future_error" -> e.a = Cardinality(FutsOf(st, key) \cap st.fail)
-    [] e.s = "exec_total" -> e.a = B(key \in st.execs)
+    [] e.s = "exec_total" -> e.a = NOf(st.execs, key)
     [] e.s = "retry_total" -> e.a = SumRetries(st, FutsOf(st, Key(T_RETRY, e.c)))
     [] e.s = "poll_total" -> e.a = Get(st.polls, e.c, 0)
     [] e.s = "poll_error" -> e.a = Get(st.pollerr, e.c, 0)
